@@ -10,8 +10,11 @@ Does not decide equality with the hand-edited text.
 """
 import ast
 
+from zcstatic.report import AnalysisError
+
 from rules.common import crosscheck
 from zcstatic import absint as A
+from zcstatic import crosscheck as X
 from zcstatic.model import src, walk_shallow
 
 CM = "ZConfig.cmdline"
@@ -59,17 +62,22 @@ def run(ctx):
     crosscheck(ctx, "C14.R2", MM + ".addValue", REF, "mixin_addValue", MM,
                "suppress iff normalised key is overridden; else delegate "
                "unchanged")
-    # sibling agreement: the first statement (key-type wrapper) of both
-    # addValue implementations has the same decision table
-    base = m.fn(MT + ".BaseMatcher.addValue")
+    # sibling agreement: both addValue implementations convert the key the
+    # same way (the key type applied to the key as written, a ValueError
+    # wrapped into DataConversionError(e, key, position)).  Decided
+    # semantically: each live function equals its reference (the mixin's
+    # above, the base matcher's here), and the two *references* begin with
+    # the identical wrapper (compared as syntax trees of /verif/spec, which
+    # no change to the repository can affect).
     mix = m.fn(MM + ".addValue")
+    crosscheck(ctx, "C14.R2", MT + ".BaseMatcher.addValue", REF, "addValue",
+               MT + ".BaseMatcher", "the base matcher's key-type wrapper")
 
     def head(fn):
         import copy
         for st in fn.node.body:
             if isinstance(st, ast.Try):
                 st = copy.deepcopy(st)
-                # the name an exception is bound to is not behaviour
                 for h in st.handlers:
                     if h.name:
                         for n in ast.walk(h):
@@ -78,13 +86,17 @@ def run(ctx):
                         h.name = "<exc>"
                 return ast.dump(st, annotate_fields=False)
         return None
-    run.check(head(base) is not None and head(base) == head(mix), "C14.R2",
-              MM + ".addValue", "same key-type wrapper as the base matcher",
-              "both addValue implementations start with the identical "
-              "try: realkey = self.type.keytype(key) / except ValueError -> "
-              "DataConversionError(e, key, position)",
-              "the overriding matcher converts keys differently from the "
-              "base matcher", loc=m.loc(mix, mix.node))
+    rb = X.spec_function(m, REF, "addValue")
+    rm = X.spec_function(m, REF, "mixin_addValue")
+    if head(rb) is None or head(rb) != head(rm):
+        raise AnalysisError("the references of BaseMatcher.addValue and "
+                            "MatcherMixin.addValue no longer begin with the "
+                            "same key-type wrapper (spec/ref_matcher.py)")
+    run.ok("C14.R2", MM + ".addValue", "same key-type wrapper as the base "
+           "matcher", "both implementations equal their references, which "
+           "begin with the identical try: realkey = self.type.keytype(key) / "
+           "except ValueError -> DataConversionError(e, key, position)",
+           loc=m.loc(mix, mix.node))
 
     from rules.common import raw_param_uses
     bad = raw_param_uses(P, mix, 0, allow_call=lambda f: f.endswith(
@@ -131,7 +143,6 @@ def run(ctx):
               % sorted(callers - {"ZConfig.cfgparser",
                                   "ZConfig.substitution"}))
 
-    from zcstatic import crosscheck as X
     virt = {}
     if m.lookup_method(OB, "_normalize_case") is None:
         # the private one-line helper has been inlined into its caller: the
